@@ -112,7 +112,7 @@ func init() {
 		goStructPut,
 		objectHasProperty,
 		objectHasOwnProperty,
-		objectDefineOwnProperty,
+		goStructDefineOwnProperty,
 		objectDelete,
 		goStructEnumerate,
 		objectClone,
